@@ -160,8 +160,11 @@ def world_part(name, quick, thorough, **kw):
     return d
 
 
-def _w(prop, nmods, maxdev, depth, dl, k=1):
-    return ['--prop', prop, '--nmods', nmods, '--maxdev', maxdev, '--depth', depth, '--deadline', dl, '--k', k]
+_WORLD_ARGS = {'C09': ['--keylimit', 2], 'C09X': ['--keylimit', 2]}      # extra harness arguments per profile (quick tier; thorough runs the whole key menu)
+
+
+def _w(prop, nmods, maxdev, depth, dl, k=1, tier='quick'):
+    return ['--prop', prop, '--nmods', nmods, '--maxdev', maxdev, '--depth', depth, '--deadline', dl, '--k', k] + (_WORLD_ARGS.get(prop, []) if tier == 'quick' else [])
 
 
 CHECKS['SMOKE'] = dict(title='world smoke', parallel=1, parts=[world_part('w', quick=[_w('SMOKE', 2, 0, 4, 60)], thorough=[_w('SMOKE', 2, 0, 6, 300)])])
@@ -196,6 +199,8 @@ _WORLD_EXTRA = {
 }
 _WORLD_EXTRA_PROFILE = {      # further profiles of harness/world.c run under the same property: [(quick, thorough)], each (profile, modules, deviations, depth)
     'C03': [(('C03E', 2, 0, 3), ('C03E', 2, 0, 5))],      # signal / path / pid events
+    'C02': [(('C02O', 1, 0, 7), ('C02O', 2, 0, 7))],      # one-shot subscriptions: used up by the first message sent under them, wherever it is handed over
+    'C07': [(('C07O', 1, 0, 8), ('C07O', 2, 0, 8))],      # context registered with NAME_DUP / auto-free name and user data
     'C13': [(('C13B', 1, 0, 5), ('C13B', 1, 0, 7))],      # batching and priorities on a module that also has a token bucket (refill ticks are internal timer events)
     'C04': [(('C04F', 2, 1, 5), ('C04F', 2, 2, 6))],      # messages and pills in flight, re-entrant stop/deregister from the handler, final flush
     'C20': [(('C20T', 1, 1, 5), ('C20T', 2, 2, 6))],      # the context tick: set / cleared at top level and from callbacks, also while the loop stops
@@ -209,10 +214,10 @@ for _p, (_q, _t) in _WORLD.items():
                                   thorough='modules=%d deviations<=%d depth=%d k=2' % _t + ''.join('; modules=%d deviations<=%d depth=%d' % x for x in _xt)),
                       assumptions=['single thread, one context', 'real kernel pipes/epoll, virtual time through the link-time shim', 'handles passed are live references owned by the caller'],
                       parts=[world_part('w', quick=[_w(_p, _q[0], _q[1], _q[2], 250, _WORLD_K.get(_p, 1))] + [_w(_p, x[0], x[1], x[2], 200) for x in _xq],
-                                        thorough=[_w(_p, _t[0], _t[1], _t[2], 1200, 2)] + [_w(_p, x[0], x[1], x[2], 600, 2) for x in _xt])])
+                                        thorough=[_w(_p, _t[0], _t[1], _t[2], 1200, 2, 'thorough')] + [_w(_p, x[0], x[1], x[2], 600, 2, 'thorough') for x in _xt])])
     for _eq, _et in _WORLD_EXTRA_PROFILE.get(_p, []):
         CHECKS[_p]['parts'][0]['quick'].append(_w(_eq[0], _eq[1], _eq[2], _eq[3], 200))
-        CHECKS[_p]['parts'][0]['thorough'].append(_w(_et[0], _et[1], _et[2], _et[3], 600, 2))
+        CHECKS[_p]['parts'][0]['thorough'].append(_w(_et[0], _et[1], _et[2], _et[3], 600, 2, 'thorough'))
         CHECKS[_p]['bounds']['quick'] += '; profile %s modules=%d depth=%d' % (_eq[0], _eq[1], _eq[3])
         CHECKS[_p]['bounds']['thorough'] += '; profile %s modules=%d depth=%d k=2' % (_et[0], _et[1], _et[3])
 
